@@ -37,6 +37,22 @@ ReplyOk(exp, got) ==
     [] exp.t = "array" -> got.t = "array" /\ Len(got.a) = Len(exp.a) /\ \A i \in DOMAIN exp.a : ReplyOk(exp.a[i], got.a[i])
     [] OTHER -> got = exp
 
+(* C16: the command was issued by a one-line script through redis.call / redis.pcall.  The reply *)
+(* goes RESP -> Lua -> RESP (EntryPaths!Conv): a null array becomes a null bulk and an array is  *)
+(* read up to its first null element; redis.call turns an error reply into a script error that   *)
+(* carries the original text.                                                                    *)
+IsNilR(r) == r.t \in {"nullbulk", "nullarray"}
+RECURSIVE ConvExp(_), ConvExpSeq(_)
+ConvExp(exp) == IF exp.t = "array" THEN [exp EXCEPT !.a = ConvExpSeq(exp.a)]
+                ELSE IF exp.t = "nullarray" THEN RNil ELSE exp
+ConvExpSeq(q) == IF q = <<>> \/ IsNilR(Head(q)) THEN <<>> ELSE <<ConvExp(Head(q))>> \o ConvExpSeq(Tail(q))
+ContainsB(hay, needle) == \E i \in 0..(Len(hay) - Len(needle)) : SubSeq(hay, i + 1, i + Len(needle)) = needle
+ViaOf(ev) == IF "via" \in DOMAIN ev THEN ev.via ELSE "direct"
+ReplyOkVia(via, exp, got) ==
+  IF via = "direct" THEN ReplyOk(exp, got)
+  ELSE IF via = "call" /\ exp.t = "error" THEN got.t = "error" /\ ContainsB(got.b, exp.b)
+  ELSE ReplyOk(ConvExp(exp), got)
+
 Verdict(ev, what) == PrintT(<<"VERDICT", ToJson([run |-> run, l |-> l, v |-> "bad", what |-> what, op |-> ev.c.op])>>)
 
 VerdictDev(ev, id) == PrintT(<<"VERDICT", ToJson([run |-> run, l |-> l, v |-> id, what |-> "known deviation " \o id, op |-> ev.c.op])>>)
@@ -54,7 +70,7 @@ Judge(ev) ==
      ELSE IF ev.ro /\ ev.c.op \notin ReadOnlyOps THEN Verdict(ev, "the code classifies as read-only a command that the model says may write")
      ELSE IF ~ModelChecks \/ ev.c.op \in TolerateOps THEN TRUE
      ELSE LET alts == DoAlts(ev.c, pre, now)
-              Match(res) == ReplyOk(res.r, ev.r) /\ StateEq(Live(res.s, now), after)
+              Match(res) == ReplyOkVia(ViaOf(ev), res.r, ev.r) /\ StateEq(Live(res.s, now), after)
               (* the fast / pooled / batched GET does not advance the shard's clock: it still sees a key whose *)
               (* deadline passed since the last generic command on that shard                              *)
               stale == IF /\ "path" \in DOMAIN ev /\ ev.path # "generic" /\ ev.c.op = "GET"
@@ -64,7 +80,7 @@ Judge(ev) ==
           IN
           IF \E res \in alts : Match(res) THEN TRUE
           ELSE IF devs # {} THEN VerdictDev(ev, (CHOOSE d \in devs : TRUE).id)
-          ELSE IF \A res \in alts : ~ReplyOk(res.r, ev.r) THEN Verdict(ev, "reply differs from the Redis model")
+          ELSE IF \A res \in alts : ~ReplyOkVia(ViaOf(ev), res.r, ev.r) THEN Verdict(ev, "reply differs from the Redis model")
           ELSE Verdict(ev, "keyspace after the command differs from the Redis model")
 
 TraceInit == l = 1 /\ run = 0 /\ pre = [k \in {} |-> 0]
